@@ -127,6 +127,121 @@ def gen_queries(ck, caps, out, rng, light=False, p5=0.3):
                             out.append(f"replace5 {ck} {cap} {L(l)} {p} {k} {L(n)} {p2} {rng.choice([0, 1, 2, NPOS])}")
 
 
+def gen_replace_self(ck, caps, out):
+    """replace whose replacement lies inside the string itself (the string, a substring, a pointer into it, a C string
+    into it), index- and iterator-based, on every content of length <= 4 over {a, b, c}... reduced: distinct letters
+    so that a character read after it was overwritten shows"""
+    for cap in caps:
+        for n in range(0, min(cap, 5) + 1):
+            l = [97 + i for i in range(n)]
+            ps = list(range(0, n + 2)) + [NPOS]
+            for p in ps:
+                for k in ps:
+                    out.append(f"replaces {ck} {cap} {L(l)} {p} {k}")
+                    for off in range(0, n + 1):
+                        out.append(f"replacezs {ck} {cap} {L(l)} {p} {k} {off}")
+                        for c2 in range(0, n - off + 1):
+                            out.append(f"replaceps {ck} {cap} {L(l)} {p} {k} {off} {c2}")
+                    for off in range(0, n + 2):
+                        for c2 in [0, 1, 2, 3, NPOS]:
+                            out.append(f"replace5s {ck} {cap} {L(l)} {p} {k} {off} {c2}")
+                    if p != NPOS and k != NPOS and p <= k <= n:
+                        out.append(f"replaceis {ck} {cap} {L(l)} {p} {k}")
+                        for off in range(0, n + 1):
+                            out.append(f"replaceizs {ck} {cap} {L(l)} {p} {k} {off}")
+                            for c2 in range(0, n - off + 1):
+                                out.append(f"replaceips {ck} {cap} {L(l)} {p} {k} {off} {c2}")
+
+
+def gen_nul_needles(ck, cap, out):
+    """search members with a needle SET / needle STRING that contains the null character, on contents with and without
+    an embedded null, positions around size(): the terminator at data()[size()] must never take part in a match"""
+    al = ALPHA[ck]
+    a, b = al[0], al[1]
+    for l in strings([a, b, 0], min(3, cap)):
+        n = len(l)
+        ps = sorted(set([0, max(n - 1, 0), n, n + 1, n + 2, NPOS - 1, NPOS]))
+        for nd in [[0], [a, 0], [0, b], [0, 0], [b, 0, a]]:
+            for fam in FAMS:
+                out.append(f"qd_{fam} {ck} {cap} {L(l)} {L(nd)}")
+                for p in ps:
+                    if len(nd) <= cap:
+                        out.append(f"q_{fam} {ck} {cap} {L(l)} {L(nd)} {p}")
+                    out.append(f"sp_{fam} {ck} {cap} {L(l)} {L(nd)} {p} {len(nd)}")
+        for fam in FAMS:
+            for p in ps:
+                out.append(f"sc_{fam} {ck} {cap} {L(l)} 0 {p}")
+
+
+def gen_queries_long(ck, cap, out, rng, count):
+    """const members on LONGER contents (4..12 characters, the exhaustive blocks stop at 3): random content over
+    {a, b} + sometimes a top-bit character / NUL, needle = a substring of the content (so that matches at positions
+    > 3 and repeated matches occur), a mutated substring or random; every family and argument form, compare with
+    random (pos, count) pairs, copy, starts_with / ends_with / contains, relational operators, operator[]"""
+    al = ALPHA[ck]
+    for _ in range(count):
+        n = rng.randint(4, min(cap, 12))
+        l = [rng.choice(al[:2]) if rng.random() < 0.85 else rng.choice(al) for _ in range(n)]
+        k = rng.random()
+        if k < 0.6:
+            i = rng.randint(0, n - 1)
+            nd = l[i:i + rng.randint(0, 4)]
+        elif k < 0.8:
+            i = rng.randint(0, n - 1)
+            nd = l[i:i + rng.randint(1, 4)]
+            nd[rng.randrange(len(nd))] = rng.choice(al)
+        else:
+            nd = [rng.choice(al) for _ in range(rng.randint(0, 4))]
+        nd = nd[:cap]
+        ps = list(range(0, n + 2)) + [NPOS, NPOS - 1]
+        fam = rng.choice(FAMS)
+        for p in rng.sample(ps, 4):
+            out.append(f"q_{fam} {ck} {cap} {L(l)} {L(nd)} {p}")
+            out.append(f"sp_{fam} {ck} {cap} {L(l)} {L(nd + [al[0]])} {p} {len(nd)}")
+            out.append(f"sz_{fam} {ck} {cap} {L(l)} {L(nd)} {p}")
+            out.append(f"sc_{fam} {ck} {cap} {L(l)} {rng.choice(l + [al[2]])} {p}")
+        out.append(f"qd_{fam} {ck} {cap} {L(l)} {L(nd)}")
+        pn = list(range(0, len(nd) + 2)) + [NPOS]
+        p1, n1, p2, n2 = rng.choice(ps), rng.choice(ps), rng.choice(pn), rng.choice(pn)
+        if rng.random() < 0.7:
+            p1, p2 = rng.randint(0, n), rng.randint(0, len(nd))
+        out.append(f"cmp_5 {ck} {cap} {L(l)} {p1} {n1} {L(nd)} {p2} {n2}")
+        out.append(f"c5v {ck} {cap} {L(l)} {p1} {n1} {L(nd)} {p2} {n2}")
+        out.append(f"c3 {ck} {cap} {L(l)} {p1} {n1} {L(nd)}")
+        out.append(f"c3z {ck} {cap} {L(l)} {p1} {n1} {L(nd)}")
+        out.append(f"c3v {ck} {cap} {L(l)} {p1} {n1} {L(nd)}")
+        out.append(f"c4p {ck} {cap} {L(l)} {p1} {n1} {L(nd + [al[1]])} {rng.randint(0, len(nd) + 1)}")
+        m = l[:]
+        if rng.random() < 0.7:
+            m[rng.randrange(n)] = rng.choice(al)
+        m = m[:rng.randint(0, n)] if rng.random() < 0.3 else m
+        out.append(f"cmp_1 {ck} {cap} {L(l)} {L(m)}")
+        out.append(f"rel_ss {ck} {cap} {L(l)} {L(m)}")
+        out.append(f"rel_sx {ck} {cap} {L(l)} {L(m)}")
+        out.append(f"rel_sz {ck} {cap} {L(l)} {L(m)}")
+        out.append(f"rel_zs {ck} {cap} {L(l)} {L(m)}")
+        out.append(f"cz {ck} {cap} {L(l)} {L(m)}")
+        out.append(f"cv {ck} {cap} {L(l)} {L(m)}")
+        out.append(f"copy_m {ck} {cap} {L(l)} {rng.choice(ps)} {rng.choice(ps)}")
+        pre = l[:rng.randint(0, n)] if rng.random() < 0.5 else l[rng.randint(0, n):]
+        out.append(f"pfx_v {ck} {cap} {L(l)} {L(pre)}")
+        out.append(f"pfx_z {ck} {cap} {L(l)} {L(pre)}")
+        out.append(f"pfx_c {ck} {cap} {L(l)} {rng.choice([l[0], l[-1], al[2]])}")
+        out.append(f"idx {ck} {cap} {L(l)} {rng.choice(ps)}")
+        out.append(f"fb {ck} {cap} {L(l)}")
+        out.append(f"ef {ck} {cap} {L(l)}")
+        # replace on longer contents (known-finding ops: compared with the model; with std where the length is kept)
+        x = [rng.choice(al[:3]) for _ in range(rng.randint(0, 4))]
+        p, c = rng.choice(ps), rng.choice(ps)
+        if rng.random() < 0.5:
+            p = rng.randint(0, n)
+            c = len(x)
+        out.append(f"replace {ck} {cap} {L(l)} {p} {c} {L(x)}")
+        out.append(f"replacez {ck} {cap} {L(l)} {p} {c} {L(x)}")
+        out.append(f"replacep {ck} {cap} {L(l)} {p} {c} {L(x + [al[1]])} {len(x)}")
+        out.append(f"replace5 {ck} {cap} {L(l)} {p} {c} {L(x)} {rng.randint(0, len(x))} {rng.choice([0, 1, 2, NPOS])}")
+
+
 def gen_queries_hi(ck, cap, out, rng):
     """compare / search on contents over the FULL alphabet of the character type (a, b, a character with the top
     bit set - negative for char/wchar_t -, NUL): ordering of characters >= 0x80 and embedded NULs"""
@@ -226,6 +341,31 @@ def single_ops2(l, al, cap):
     for c in [a, b, 0]:
         ops.append(f"fer {c}")
     ops += ["fei 0", "fei 1"]
+    # every iterator-taking overload with pointers, etl::reverse_iterator (random access, not contiguous), a
+    # forward-only and an input-only iterator
+    for src in srcs + [[a, b, b]]:
+        for o in ["arr", "arf", "ari", "zr", "zrr", "zrf", "krr", "krf"]:
+            ops.append(f"{o} {L(src)}")
+    ops += self_ops(n)
+    return ops
+
+
+def self_ops(n):
+    """arguments that point into / are the string itself (n = size()): pointer + count, C string, the string, a view
+    of it, a substring of it, an iterator range of it"""
+    ops = ["asts", "pess", "plss", "avss", "zself", "zvself", "sws"]
+    offs = list(range(0, n + 2))
+    for off in offs:
+        ops += [f"zeqs {off}", f"zcss {off}", f"acss {off}"]
+        for k in list(range(0, n + 2)) + [NPOS]:
+            ops += [f"aps {off} {k}", f"asps {off} {k}", f"ars {off} {k}", f"asss {off} {k}", f"zsss {off} {k}",
+                    f"avsss {off} {k}", f"zvsss {off} {k}"]
+            for i in range(0, n + 2):
+                ops += [f"ips {i} {off} {k}", f"isss {i} {off} {k}", f"ivsss {i} {off} {k}"]
+        for i in range(0, n + 2):
+            ops.append(f"icss {i} {off}")
+    for i in range(0, n + 2):
+        ops += [f"ists {i}", f"ivss {i}"]
     return ops
 
 
@@ -343,7 +483,52 @@ def gen_history(rng, ck, cap, extra=False):
             src_nz = [c for c in src if c != 0]
             o = rng.choice(["acs", "pez", "plz", "ast", "pes", "pls", "av", "ass", "avs", "ics", "ist", "iv", "iss", "ivs",
                             "erp", "plc", "pec", "rs0", "zcs", "zeq", "zv", "zss", "zvs", "fer", "fei", "kz", "kv", "kr",
-                            "kss", "kvs", "ks", "plzs", "plcs"])
+                            "kss", "kvs", "ks", "plzs", "plcs", "SELF", "SELF", "SELF", "ITER", "ITER"])
+            if o == "SELF":
+                # an argument inside the string itself; sizes tracked so that the result fits most of the time
+                off = rng.randint(0, n)
+                k = rng.randint(0, n - off) if not wild else rng.randint(0, n + 1)
+                k = min(k, n - off)
+                if k > room and not wild:
+                    k = max(room, 0)
+                i = rng.randint(0, n)
+                so = rng.choice(["aps", "asps", "ips", "ars", "zeqs", "zcss", "acss", "icss", "asts", "pess", "plss", "ists",
+                                 "ivss", "avss", "zself", "zvself", "sws", "asss", "zsss", "avsss", "zvsss", "isss", "ivsss"])
+                if so in ("aps", "ars", "asss", "avsss"):
+                    ops.append(f"{so} {off} {k}")
+                    if so in ("ars", "asss") and k > room:
+                        break
+                    n = min(cap, n + k)
+                elif so in ("asps", "zsss", "zvsss"):
+                    ops.append(f"{so} {off} {k}")
+                    n = k
+                elif so in ("ips", "isss", "ivsss"):
+                    ops.append(f"{so} {i} {off} {k}")
+                    n = min(cap, n + k)
+                elif so in ("zself", "sws"):
+                    ops.append(so)
+                elif so == "zvself":
+                    ops.append(so)
+                else:
+                    # C strings / the whole string: the generator does not track embedded NULs; the history ends here
+                    ops.append(f"{so} {i} {off}" if so == "icss" else (f"{so} {i}" if so in ("ists", "ivss") else (f"{so} {off}" if so in ("zeqs", "zcss", "acss") else so)))
+                    break
+                continue
+            if o == "ITER":
+                src = rchars(rng, ck, rng.randint(0, min(4, max(room, 0)) if not wild else 4))
+                io = rng.choice(["arr", "arf", "ari", "zr", "zrr", "zrf", "krr", "krf"])
+                if io in ("arr", "arf", "ari"):
+                    ops.append(f"{io} {L(src)}")
+                    if len(src) > room:
+                        break
+                    n += len(src)
+                else:
+                    src = rchars(rng, ck, rng.randint(0, min(cap, 5) + (1 if wild else 0)))
+                    ops.append(f"{io} {L(src)}")
+                    if len(src) > cap:
+                        break
+                    n = len(src)
+                continue
             if o in ("acs", "pez", "plz"):
                 ops.append(f"{o} {L(src)}")
                 n = min(cap, n + (src.index(0) if 0 in src else len(src)))
@@ -440,6 +625,8 @@ def gen(tier, rng):
     gen_queries("u", [3, 16], out, rng, light=True)
     for ck, cap in [("c", 3), ("c", 16), ("w", 3), ("u", 3), ("s", 15), ("b", 16)]:
         gen_queries_hi(ck, cap, out, rng)
+    for ck, cap, cnt in [("c", 7, 250), ("c", 15, 250), ("c", 16, 400), ("c", 255, 100), ("w", 16, 150), ("u", 16, 100), ("s", 15, 100), ("b", 16, 100)]:
+        gen_queries_long(ck, cap, out, rng, cnt if quick else cnt * 20)
     fr = 0.3 if quick else 1.0
     gen_overloads("c", [3, 16], out, rng, fr)
     gen_overloads("c", [0, 1], out, rng, fr)
@@ -473,6 +660,25 @@ def gen(tier, rng):
             out.append(hist("c", cap, [f"af {cap} 97", tail, "af 1 100"]))
     for ck, cap in [("c", 7), ("c", 16), ("w", 15), ("w", 16), ("u", 3), ("s", 15), ("b", 16), ("c", 255)]:
         gen_stale(ck, cap, out)
+    gen_replace_self("c", [7, 16] if quick else [3, 7, 15, 16, 255], out)
+    gen_replace_self("w", [3] if quick else [3, 16], out)
+    if not quick:
+        gen_replace_self("u", [3, 16], out)
+        gen_replace_self("s", [15], out)
+        gen_replace_self("b", [16], out)
+    for ck, cap in [("c", 3), ("c", 16), ("w", 3)] + ([] if quick else [("c", 7), ("c", 255), ("u", 16), ("s", 15), ("b", 16)]):
+        gen_nul_needles(ck, cap, out)
+    # self-referential arguments and iterator flavours on longer strings at both layouts
+    for ck, cap in [("c", 7), ("c", 15), ("c", 16), ("w", 16), ("u", 15), ("s", 15), ("b", 16)]:
+        al = ALPHA[ck]
+        for n in ([3, 5] if quick else [1, 3, 5, 7]):
+            l = [al[0], al[1], al[2], 99, 100, 101, 102][:n]
+            pre = [f"asp {L(l)} {len(l)}"]
+            for o in self_ops(n)[::1 if not quick else 3]:
+                out.append(hist(ck, cap, pre + [o]))
+            for o in ["arr", "arf", "ari", "zr", "zrr", "zrf", "krr", "krf"]:
+                for src in [[], [al[1]], [al[0], al[1], al[2]], [99, 100, 101, 102, 103, 104, 105, 106, 107, 108, 109, 110, 111]]:
+                    out.append(hist(ck, cap, pre + [f"{o} {L(src)}"]))
     add_raw(out, rng, 0.2 if quick else 0.5)
     return out
 
